@@ -49,7 +49,10 @@ def u_language(ctx):
     # the acceptance test itself, from the real source: `if not match_ or _NO_VERTICAL_SPEC.fullmatch(spec): raise`
     fn = ctx.fn(COMMON, "BaseImage._check_format_spec")
     import ast
-    src = ast.unparse(fn.body[1]) + ast.unparse(fn.body[2].test) if len(fn.body) > 2 else ""
+    try:
+        src = ast.unparse(fn.body[1]) + ast.unparse(fn.body[2].test) if len(fn.body) > 2 else ""
+    except AttributeError:
+        src = ""
     want = "match_ = _FORMAT_SPEC.fullmatch(spec)" + "not match_ or _NO_VERTICAL_SPEC.fullmatch(spec)"
     if src != want:
         raise Unsupported("acceptance test of _check_format_spec changed shape: " + src[:120])
